@@ -131,7 +131,7 @@ def _sh_to_regex(tier):
             product_pins(n=[3], k=[1], m=[3], starts=[1, 3], finals=[4], perm=[0, 4], wlen=[2], t0=[0], t1=[0, 1]) + \
             product_pins(n=[3], k=[1], m=[3], starts=[1, 3], finals=[4], perm=[0, 4], wlen=[2], t0=[1])
     return product_pins(n=[2], k=[1, 2], m=[0, 1, 2, 3, 4], starts=[0, 1, 2, 3], finals=[0, 1, 2, 3], wlen=[2]) + \
-        product_pins(n=[3], k=[1, 2], m=[2, 3, 4], starts=[1, 3, 5], finals=[2, 4, 6], perm=[0, 2, 4], wlen=[2],
+        product_pins(n=[3], k=[1, 2], m=[2, 3, 4], starts=[1, 3], finals=[4, 6], perm=[0, 4], wlen=[2],
                      t0=[0, 1, 2])
 
 
